@@ -46,9 +46,10 @@ RCM = "dask_array.reductions._common"
 CHK = "dask_array._chunk"
 SHF = "dask_array._shuffle"
 VIX = "dask_array.slicing._vindex"
+ARG = "dask_array.creation._arange"
 DB = "dask.blockwise"
 MT = "dask_array._materialize"
-MODS = [MT, "dask_array.core._blockwise_funcs", "dask_array.core._conversion", EX, BW, CU, RC, FA, IOB, SB, SU, "dask_array.slicing", CO, NC, TR, XP, SQ, BT, CC, SK, RD, RCM, SHF, VIX, DB]
+MODS = [MT, "dask_array.core._blockwise_funcs", "dask_array.core._conversion", EX, BW, CU, RC, FA, IOB, SB, SU, "dask_array.slicing", CO, NC, TR, XP, SQ, BT, CC, SK, RD, RCM, SHF, VIX, ARG, DB]
 STUBS = SHIM_LIST + [
     "expression classes -> symx.nodes (real methods on cloned code; constructors/tokenize bypassed, structural names); the "
     "Array collection class -> subclass with cloned methods",
@@ -276,6 +277,23 @@ def p_blockwise_T(w, E, p):
     return Prog(out.expr, p.ref.transpose((1, 0)), p.dsk)
 
 
+def p_arange(w, E, step, blocks):
+    """arange(start, start + n*step, step) with symbolic start and chunk sizes; values are start + p*step"""
+    import z3
+    import dask_array.creation._arange as M
+    from symx.core import SymReal, _z
+
+    start = E.int("start")
+    chunks = tuple(E.int(f"a{i}", 1) for i in range(blocks))
+    n = sum(chunks)
+    stop = start + n * step
+    node = w.space.make(M.Arange, start, stop, step, (chunks,), None, np.dtype("i8"), None,
+                        _symx_attrs=dict(_meta=np.empty((0,), dtype="i8")))
+    a = SymReal._r(start)
+    ref = SArr((n,), lambda idx, a=a: a + step * z3.ToReal(idx[0]))
+    return Prog(node, ref, {})
+
+
 def p_take(w, E, p, axis, index):
     """x[..., [i, j, ...], ...] through Array.__getitem__ (normalize_index -> slice_wrap_lists -> take -> Shuffle);
     the index values are concrete, the axis is long enough to hold them"""
@@ -356,6 +374,12 @@ def programs(tier):
     reg("sum(x2x2,axis=1)[a:b]", lambda w, E: p_slice(w, p_sum(w, source(w, E, "x", (2, 2)), 1), raw_index(E, (F,))), 5)
     reg("sum(x2x2,axis=0)[i]", lambda w, E: p_slice(w, p_sum(w, source(w, E, "x", (2, 2)), 0), raw_index(E, ("i",))), 4)
     reg("sum(x2+y2,axis=0)", lambda w, E: p_sum(w, _add_aligned(w, E, (2,)), 0), 3)
+    # creation with affine values: slices fold into start/step (Arange._accept_slice)
+    reg("arange(start,stop,2;3 blocks)", lambda w, E: p_arange(w, E, 2, 3), 2)
+    reg("arange(start,stop,1;3 blocks)[a:b]", lambda w, E: p_slice(w, p_arange(w, E, 1, 3), raw_index(E, (F,))), 4)
+    reg("arange(start,stop,3;2 blocks)[a:b:-1]", lambda w, E: p_slice(w, p_arange(w, E, 3, 2), raw_index(E, ((1, 1, -1),))), 6)
+    reg("arange(start,stop,-2;2 blocks)[a:]", lambda w, E: p_slice(w, p_arange(w, E, -2, 2), raw_index(E, ((1, 0, None),))), 4)
+    reg("(arange(..,1;2 blocks)+x2)[a:b]", lambda w, E: _arange_plus(w, E), 6)
     # integer-list indices (take -> Shuffle) and shuffles pushed through other nodes
     reg("x3[[2,0,1]]", lambda w, E: p_take(w, E, source(w, E, "x", (3,)), 0, [2, 0, 1]), 6)
     reg("x2x2[:,[1,0,0]]", lambda w, E: p_take(w, E, source(w, E, "x", (2, 2)), 1, [1, 0, 0]), 6)
@@ -394,6 +418,12 @@ def _rechunk_prog(w, E, blocks, new_blocks):
     for a in range(len(blocks)):
         E.assume(sum(tgt[a]) == sum(p.node.chunks[a]))
     return p_rechunk(w, p, tgt)
+
+
+def _arange_plus(w, E):
+    a = p_arange(w, E, 1, 2)
+    x = source(w, E, "x", (2,), chunks=a.node.chunks)
+    return p_slice(w, p_elemwise(w, operator.add, a, x), raw_index(E, ((1, 1, None),)))
 
 
 def _rechunk_over(w, E, p, new_blocks, tag="r"):
